@@ -66,7 +66,7 @@ func (funcErr) Error() string       { return "func error" }
 func (mapErr) Error() string        { return "map error" }
 func (sliceErr) Error() string      { return "slice error" }
 func (chanErr) Error() string       { return "chan error" }
-func (e *ptrStructErr) Error() string { return "pointer error" }
+func (e *ptrStructErr) Error() string { return e.msg } // reads a field: calling it on a typed nil pointer panics
 
 func errorValues() []error {
 	var nilMyErr *myErr
@@ -221,7 +221,9 @@ func buildSchema(world int, weirdErr int) *graphql.Schema {
 	subscription := &graphql.ObjectType{Name: "Subscription", Fields: map[string]*graphql.FieldDefinition{
 		"sub": {Type: graphql.IntType, Resolve: func(ctx graphql.FieldContext) (interface{}, error) {
 			if ctx.IsSubscribe {
-				return w, nil
+				// the source stream, together with the error value of the case's error mode (returned
+				// directly: a typed nil pointer is "no error" here as on every other resolver path)
+				return w, werr
 			}
 			return 1, nil
 		}, Arguments: map[string]*graphql.InputValueDefinition{"x": {Type: graphql.IntType}}},
@@ -1177,6 +1179,15 @@ func main() {
 				for _, q := range []string{seeds[16], `{wObj{i} lo{wNN} onn{wNN}}`} {
 					w, we, q := w, we, q
 					h.Case(func(*rng.R) sexp.Node { return emit("weird-promise", "execute", q, `{}`, "", w, we) })
+				}
+			}
+		}
+		// every error kind from the root subscription resolver on the Subscribe call
+		for e := 0; e < nErr; e++ {
+			for _, w := range []int{0, 4, 9} {
+				for _, q := range []string{`subscription{sub}`, `subscription{s:sub(x:1)}`} {
+					e, w, q := e, w, q
+					h.Case(func(*rng.R) sexp.Node { return emit("weird-error-kind", "subscribe", q, `{}`, "", w, e) })
 				}
 			}
 		}
